@@ -95,7 +95,7 @@ MESHES = ["tetra", "octa", "ico", "ico42"]
 
 def all_pairs():
     prim = ["capsule", "ellipsoid", "cylinder", "box"]
-    out = [("sphere", "ellipsoid")] + [("sphere", mname) for mname in MESHES]
+    out = [("sphere", "ellipsoid"), ("sphere", "octa"), ("sphere", "ico")]
     out += [("capsule", "ellipsoid"), ("capsule", "cylinder"), ("ellipsoid", "ellipsoid"), ("ellipsoid", "cylinder"),
             ("ellipsoid", "box"), ("cylinder", "cylinder"), ("cylinder", "box"), ("box", "box")]
     out += [(p, mname) for p in prim for mname in MESHES]
@@ -147,15 +147,15 @@ class DPart(core.Part):
         core.Part.violation(self, key, what, replay)
 
 
-K_MULTI = ("mjc_ccd multicontact (box/mesh pairs, margin 0): when the closest features are aligned within mjFACE_TOL/mjEDGE_TOL (~5 deg) "
-           "the manifold takes a face normal of one geom and per-vertex depths, so the deepest contact dist / normal deviate from the "
-           "true penetration depth and its direction")
+K_MULTI = ("mjc_ccd multicontact (box/mesh pairs, margin 0): the multi-contact stage (face/edge alignment within mjFACE_TOL/mjEDGE_TOL "
+           "~5 deg, snapped face normal, per-vertex depths) changes the deepest contact dist / normal although the single-contact EPA "
+           "answer for the same pose (mj_geomDistance) is right")
 
 
 def face_snapped(g0, g1, nrm, nref):
     """contact normal is a face normal of one of the polytopes and within 6 degrees of the true optimal direction"""
     fn = np.concatenate([g0.face_normals(), g1.face_normals()])
-    return bool(np.max(np.abs(fn @ nrm)) > 1 - 1e-9 and float(nrm @ nref) > math.cos(math.radians(6.0)))
+    return bool(np.max(np.abs(fn @ nrm)) > 1 - 1e-6 and float(nrm @ nref) > math.cos(math.radians(6.0)))
 
 
 def eval_pose(lib, m, d, SA, SB, ida, idb, ref, do_contacts):
@@ -339,16 +339,21 @@ def run_item(lib, part, item):
                     degenerate = not any(kind in ("dist", "contact") for _, _, kind in f3)
                     d.qpos[:] = qpos
                     lib.mj_kinematics(m, d)
+                tolp = (TOL_POLY if (SA.polytope() and SB.polytope()) else TOL_SMOOTH) * (1 + abs(dref))
                 for (key, msg, kind) in fails:
                     rp = dict(info, xml=xml, qpos=qpos, pose=label)
                     if coincide:
                         k = K_GJK0
                     elif kind == "witness" and dref < 0:
                         k = K_EPAW
-                    elif kind == "multi":
+                    elif kind == "multi" or (kind == "contact" and key.startswith("margin=0 ") and SA.polytope() and SB.polytope()
+                                             and abs(info["d12"] - dref) <= TOL_POLY * (1 + abs(dref))):
+                        # same pose, same EPA: mj_geomDistance (single contact) is right, only the multi-contact stage deviates
                         k = K_MULTI
                     elif kind in ("dist", "contact") and degenerate:
                         k = K_EPADEG
+                    elif kind in ("dist", "contact") and dref < 0 and info["d12"] > dref + tolp and abs(info["d12"] - info["d21"]) <= tolp:
+                        k = "%s: mjc_ccd/EPA reports a too shallow penetration depth in an open set of poses (not a measure-zero degeneracy)" % pname
                     else:
                         k = "%s: %s" % (pname, key)
                     part.violation(k, "%s: %s [%s] %s" % (pname, key, label, msg), rp)
@@ -408,12 +413,12 @@ def run(ctx):
                 continue        # meshes have no size variants
             orders = (0, 1) if (ctx.thorough or pr[0] == pr[1]) else (0,)
             for order in orders:
-                tt = t1 if order == 0 else t1[-1:]
+                tt = t1[:1] if order == 0 else t1[-1:]
                 for r in rots:
                     items.append((pr, si, order, tt, [r]))
     core.pmap(ctx, _chunk, items, nchunks=min(len(items), 160))
     ctx.extra["models"] = len(items)
-    ctx.rule = ("pairs %s x %d size set(s) x file order(s) x first-geom placement %s x rotations %s x 5x5x5 relative positions "
+    ctx.rule = ("pairs %s x %d size set(s) x file order(s) (order 0 with the first placement, order 1 with the last) x first-geom placement %s x rotations %s x 5x5x5 relative positions "
                 "(levels {-2,-1,0,.87,1.93} x 0.515 x (extent1+support2) per axis); per pose mj_geomDistance in both argument orders "
                 "(distmax 1) and mj_collision with pair margin 0 and 0.05.  non-trivial = signed distance below 0.05 (contact expected "
                 "for one of the margins)" % (["%s-%s" % p for p in pairs], len(sis), [T1S[i][0] for i in t1], [ROTS[i][0] for i in rots]))
